@@ -352,7 +352,7 @@ func c20ReadData(p *ana.Prog, r *ana.Result) {
 	// critical bit: hasBit(msg.Type, 15) must read msg.Type before the mask store msg.Type &^= 0x8000
 	var maskStore *ssa.Store
 	ana.Instrs(fn, func(in ssa.Instruction) {
-		if st, ok := in.(*ssa.Store); ok && strings.HasSuffix(ana.AccessPath(st.Addr), "msg.Type") {
+		if st, ok := in.(*ssa.Store); ok && isRecordHdrField(st.Addr, "Type") {
 			if bo, ok := st.Val.(*ssa.BinOp); ok && (bo.Op == token.AND_NOT || bo.Op == token.AND) {
 				maskStore = st
 			}
@@ -370,7 +370,7 @@ func c20ReadData(p *ana.Prog, r *ana.Result) {
 		s := &ana.Search{Fn: fn, Target: func(in ssa.Instruction) bool { return argLoad != nil && in == ssa.Instruction(argLoad) },
 			Stop: func(in ssa.Instruction) bool {
 				c, ok := in.(ssa.CallInstruction)
-				return ok && ana.CalleeName(c.Common()) == "encoding/binary.Read" && strings.HasSuffix(ana.AccessPath(ana.Strip(c.Common().Args[2])), "msg")
+				return ok && ana.CalleeName(c.Common()) == "encoding/binary.Read" && isRecordHdrVar(ana.Strip(c.Common().Args[2]))
 			}}
 		found, w := s.Run(maskStore)
 		if bitOK && argLoad != nil && !found {
@@ -385,7 +385,7 @@ func c20ReadData(p *ana.Prog, r *ana.Result) {
 	var lastCmpBlock *ssa.BasicBlock
 	ana.IfEdges(fn, func(iff *ssa.If, b *ssa.BasicBlock) {
 		c, pos, isCmp := ana.AsCmp(iff.Cond)
-		if !isCmp || c.Op != token.EQL || !pos || !strings.HasSuffix(ana.AccessPath(c.X), "msg.Type") {
+		if !isCmp || c.Op != token.EQL || !pos || !isRecordHdrField(c.X, "Type") {
 			return
 		}
 		if k, ok := ana.ConstInt(c.Y); ok {
@@ -405,7 +405,7 @@ func c20ReadData(p *ana.Prog, r *ana.Result) {
 	var def *ssa.BasicBlock
 	ana.IfEdges(fn, func(iff *ssa.If, b *ssa.BasicBlock) {
 		c, pos, isCmp := ana.AsCmp(iff.Cond)
-		if !isCmp || c.Op != token.EQL || !pos || !strings.HasSuffix(ana.AccessPath(c.X), "msg.Type") {
+		if !isCmp || c.Op != token.EQL || !pos || !isRecordHdrField(c.X, "Type") {
 			return
 		}
 		fs := b.Succs[1]
@@ -413,7 +413,7 @@ func c20ReadData(p *ana.Prog, r *ana.Result) {
 		if n := len(fs.Instrs); n > 0 {
 			if i2, ok := fs.Instrs[n-1].(*ssa.If); ok {
 				c2, _, ok2 := ana.AsCmp(i2.Cond)
-				if ok2 && strings.HasSuffix(ana.AccessPath(c2.X), "msg.Type") {
+				if ok2 && isRecordHdrField(c2.X, "Type") {
 					isChain = true
 				}
 			}
@@ -429,7 +429,7 @@ func c20ReadData(p *ana.Prog, r *ana.Result) {
 	// from the default arm, reaching the next header read requires passing the edge critical == false
 	hdrRead := func(in ssa.Instruction) bool {
 		c, ok := in.(ssa.CallInstruction)
-		return ok && ana.CalleeName(c.Common()) == "encoding/binary.Read" && strings.HasSuffix(ana.AccessPath(ana.Strip(c.Common().Args[2])), "msg")
+		return ok && ana.CalleeName(c.Common()) == "encoding/binary.Read" && isRecordHdrVar(ana.Strip(c.Common().Args[2]))
 	}
 	notCritical := ana.FindGate(p, fn, "critical==false", func(_ ana.Cmp, isCmp bool, v ssa.Value) (bool, bool) {
 		if isCmp {
@@ -478,7 +478,7 @@ func c20ReadData(p *ana.Prog, r *ana.Result) {
 				// find a MakeSlice with len msg.BodyLen feeding it
 				ana.Instrs(fn, func(j ssa.Instruction) {
 					if ms, ok := j.(*ssa.MakeSlice); ok && (ms.Block() == def || def.Dominates(ms.Block())) {
-						if strings.HasSuffix(ana.AccessPath(ana.StripConv(ms.Len)), "msg.BodyLen") {
+						if isRecordHdrField(ana.StripConv(ms.Len), "BodyLen") {
 							okSkip = true
 						}
 					}
@@ -495,7 +495,7 @@ func c20ReadData(p *ana.Prog, r *ana.Result) {
 	var errArm *ssa.BasicBlock
 	ana.IfEdges(fn, func(iff *ssa.If, b *ssa.BasicBlock) {
 		c, pos, isCmp := ana.AsCmp(iff.Cond)
-		if isCmp && c.Op == token.EQL && pos && strings.HasSuffix(ana.AccessPath(c.X), "msg.Type") {
+		if isCmp && c.Op == token.EQL && pos && isRecordHdrField(c.X, "Type") {
 			if k, ok := ana.ConstInt(c.Y); ok && k == 2 {
 				errArm = b.Succs[0]
 			}
